@@ -156,9 +156,51 @@ def teeCall (B : Nat) (enc : Nat → Bytes) : List Act := (List.range B).map fun
 /-- a goroutine logging the entries `es` through the tee (`es[i] b` = encoding of entry i on branch b) -/
 def teeProg (B : Nat) (es : List (Nat → Bytes)) : List Act := es.flatMap (teeCall B)
 
+/-! `Tee.cutAux` appends to its accumulator (quadratic in the line length); the compiled driver runs this linear
+    version instead (`@[csimp]`: same function, proved below) -/
+
+def cutFastAux : Bytes → Bytes → Option (List Bytes)
+  | [], [] => some []
+  | [], _ :: _ => none
+  | b :: bs, acc => if b = 10 then (cutFastAux bs []).map ((b :: acc).reverse :: ·) else cutFastAux bs (b :: acc)
+
+def cutFast (bs : Bytes) : Option (List Bytes) := cutFastAux bs []
+
+theorem cutFastAux_eq : ∀ (bs acc : Bytes), cutFastAux bs acc = cutAux bs acc.reverse
+  | [], [] => rfl
+  | [], a :: r => by
+    have : (a :: r).reverse ≠ [] := by simp
+    cases h : (a :: r).reverse with
+    | nil => exact absurd h this
+    | cons x y => simp [cutFastAux, cutAux]
+  | b :: bs, acc => by
+    simp only [cutFastAux, cutAux]
+    split
+    · rw [cutFastAux_eq bs []]; simp
+    · rw [cutFastAux_eq bs (b :: acc)]; simp
+
+@[csimp] theorem cut_eq_cutFast : @cut = @cutFast := by
+  funext bs; simp [cut, cutFast, cutFastAux_eq]
+
+def validMergeFast (per : List (List Bytes)) (sink : Bytes) : Bool :=
+  match cutFast sink with
+  | some ls => isMerge per ls
+  | none => false
+
+@[csimp] theorem validMerge_eq_fast : @validMerge = @validMergeFast := by
+  funext per sink
+  unfold validMerge validMergeFast
+  rw [cut_eq_cutFast]
+  cases cutFast sink <;> rfl
+
 /-- executable acceptance of a recorded BufferedWriteSyncer sink: the concatenated Write calls are a valid merge, and
     every single Write call consists of whole lines -/
 def validCalls (per : List (List Bytes)) (calls : List Bytes) : Bool :=
   validMerge per calls.flatten && calls.all fun c => (cut c).isSome
+
+/-- executable acceptance of a recorded Lock(sink): the concatenation is a valid merge and every single Write call is
+    exactly one line -/
+def validLines (per : List (List Bytes)) (calls : List Bytes) : Bool :=
+  validMerge per calls.flatten && calls.all fun c => cut c == some [c]
 
 end ZapVerif.TeeBws
